@@ -31,7 +31,7 @@ def gen_helix(kind=None):
           "farside": -(ALPHA / kappa) * rng.uniform(1.05, 2.5)}.get(kind, rng.uniform(-1.5, 1.5))
     # "wrap": directions at and next to the 0 / 2*pi seam (the largest doubles below 2*pi included) and the quadrant boundaries
     phi0 = rng.choice([0.0, 1e-9, 5e-324, TWO_PI - 1e-9, TWO_PI - 1e-12, float(np.nextafter(TWO_PI, 0)), float(np.nextafter(np.nextafter(TWO_PI, 0), 0)),
-                       math.pi, math.pi / 2, float(np.nextafter(math.pi, 4))]) if kind == "wrap" else rng.uniform(0, TWO_PI)
+                       TWO_PI - 3e-5, TWO_PI - 6e-5, TWO_PI - 1e-6, 3e-5, math.pi, math.pi / 2, float(np.nextafter(math.pi, 4))]) if kind == "wrap" else rng.uniform(0, TWO_PI)
     bump(f"helix:{kind}:q{q:+d}")
     return [dr, phi0, kappa, rng.uniform(-10, 10), rng.uniform(-2.5, 2.5)]
 
@@ -202,6 +202,51 @@ def _object_mutation(prefix):
         report(f"{prefix}:history:stale-after-attribute-update:{FIELDS5[k]}", f"after h.{FIELDS5[k]} = {new[k]!r} the object gives {got}, a fresh object with the same numbers {want}",
                {"par": par, "pivot": p0, "new_pivot": p1, "attribute": FIELDS5[k], "value": new[k]})
 
+def _tiny_kappa_charge(prefix):
+    """charge of a (numerically) straight track: object, record, array and the public kernel agree for |kappa| at and around the neutral band"""
+    global n_eval
+    ks = [0.0, 1e-12, -3e-11, 1e-10, -1e-10, float(np.nextafter(1e-10, 1)), float(np.nextafter(-1e-10, -1)), 2e-10, -2e-10, 5e-324, -5e-324, 0.3, -0.3]
+    P = [[0.1, 1.0, k, 0.2, 0.3] for k in ks]; bump("charge:tiny-kappa")
+    want = [int(obj(pp, [0.0, 0.0, 0.0]).charge) for pp in P]; n_eval += len(ks)
+    a = awk(P, [[0.0, 0.0, 0.0]] * len(P))
+    got = {"array": [int(x) for x in ak.to_numpy(a.charge)], "record": [int(a[i].charge) for i in range(len(P))],
+           "nested-array": [int(x) for x in ak.to_numpy(ak.flatten(ak.unflatten(a, [3, 0, len(P) - 3]).charge))],
+           "kernel": [int(x) for x in np.asarray(p3.tracks.helix.kappa_to_charge(np.array(ks)))] if hasattr(p3.tracks.helix, "kappa_to_charge") else None}
+    for form, g in got.items():
+        if g is not None and g != want:
+            j = next(i for i in range(len(ks)) if g[i] != want[i])
+            report(f"{prefix}:array-differs-from-object:charge:tiny-kappa:{form}", f"charge of kappa = {ks[j]!r}: {form} says {g[j]}, the single-track object {want[j]} (all: {g} vs {want})", {"kappas": ks})
+
+def _curvilinear_vectors(prefix):
+    """pivots / positions given as vector objects in cylindrical or spherical coordinates are the same points as their Cartesian forms"""
+    global n_eval
+    par, E = gen_helix(), gen_error()
+    x, y, z = rng.uniform(-4, 4), rng.uniform(-4, 4), rng.uniform(-6, 6)
+    rho, phi = math.hypot(x, y), math.atan2(y, x); theta = math.atan2(rho, z); eta = -math.log(math.tan(theta / 2))
+    forms = {"cartesian": vector.obj(x=x, y=y, z=z), "rho-phi-z": vector.obj(rho=rho, phi=phi, z=z), "rho-phi-theta": vector.obj(rho=rho, phi=phi, theta=theta),
+             "x-y-theta": vector.obj(x=x, y=y, theta=theta), "rho-phi-eta": vector.obj(rho=rho, phi=phi, eta=eta)}
+    bump("pivot:vector-object-coordinate-systems")
+    ref_new = pars(obj(par, [0.0, 0.0, 0.0], E).change_pivot(x, y, z)); ref_init = obj(par, [x, y, z])
+    refpos = [ref_init.position.x, ref_init.position.y, ref_init.position.z]
+    sc = 1 + abs(ALPHA / par[2]) + abs(par[0]) + 10
+    for nm, v in forms.items():
+        n_eval += 3
+        g1 = pars(obj(par, [0.0, 0.0, 0.0], E).change_pivot(v))
+        g2 = [float(t) for t in (lambda a: [a.dr[0], a.phi0[0], a.kappa[0], a.dz[0], a.tanl[0]])(awk([par], [[0.0, 0.0, 0.0]], [E]).change_pivot(v))]
+        h3 = p3.helix_obj(params=tuple(par), pivot=v); g3 = [h3.position.x, h3.position.y, h3.position.z]
+        for lab, g, w in (("change_pivot:obj", g1, ref_new), ("change_pivot:arr", g2, ref_new), ("initial-pivot:obj", g3, refpos)):
+            if any((abs(wrap(a - b)) > 1e-9) if (k == 1 and lab.startswith("change")) else (abs(a - b) > 1e-9 * sc * (1 + abs(par[4]))) for k, (a, b) in enumerate(zip(g, w))):
+                report(f"{prefix}:pivot-forms-differ:vector-object:{nm}:{lab}", f"pivot given as vector.obj in {nm} coordinates ({x!r}, {y!r}, {z!r}): {g}; as Cartesian numbers: {w}", {"par": par, "point": [x, y, z], "form": nm})
+    # the physics-quantity constructor with position AND pivot as curvilinear vector objects
+    hpos = obj(par, [x, y, z])
+    pos = hpos.position; posv = vector.obj(rho=math.hypot(pos.x, pos.y), phi=math.atan2(pos.y, pos.x), z=pos.z)
+    hb = p3.helix_obj(position=posv, momentum=hpos.momentum, charge=hpos.charge, pivot=forms["rho-phi-z"]); n_eval += 1
+    back = pars(hb)
+    if abs(back[0] - par[0]) > 1e-8 * sc or abs(wrap(back[1] - par[1])) > 1e-8 or abs(back[3] - par[3]) > 1e-8 * sc:
+        report(f"{prefix}:roundtrip:vector-object:rho-phi-z", f"helix rebuilt from its position / pivot given as cylindrical vector objects: {back} vs {par}", {"par": par, "pivot": [x, y, z]})
+
+tiny_kappa_charge = None
+curvilinear_vectors = None
 _AFA = [0]
 def _array_field_assignment(prefix):
     """ak.Array supports in-place field assignment (`h["kappa"] = h.kappa / 1.25`, e.g. a momentum-scale correction): a helix array that
@@ -379,6 +424,8 @@ object_mutation = _guarded(_object_mutation, "history-object")
 reordered_views = _guarded(_reordered_views, "reordered")
 large_array = _guarded(_large_array, "large-array")
 array_field_assignment = _guarded(_array_field_assignment, "history-array-field")
+tiny_kappa_charge = _guarded(_tiny_kappa_charge, "tiny-kappa-charge")
+curvilinear_vectors = _guarded(_curvilinear_vectors, "curvilinear-vector-objects")
 
 # ------------------------------------------------------------------------------------------------ validate
 def do_validate():
@@ -433,7 +480,9 @@ def do_c06():
         par, p0, p1 = corner(i) or (gen_helix(), gen_pivot(), gen_pivot())
         if i >= len(CORNERS) and i % 8 == 0: p1 = near_centre_pivot(par, p0)
         if i % 12 == 0: object_mutation("C06"); array_field_assignment("C06")
-        if i % 25 == 0: int_columns_move("C06"); reuse_history("C06"); named_pivot_forms("C06")
+        if i % 25 == 0: int_columns_move("C06"); reuse_history("C06"); named_pivot_forms("C06"); curvilinear_vectors("C06")
+        if i >= len(CORNERS) and 0 < TWO_PI - par[1] < 1e-4 and rng.random() < 0.7:
+            p1 = [p0[0], p0[1], p0[2] + rng.uniform(-5, 5)]; bump("pivot:z-only-at-the-seam")      # keeps phi0: the RESULT sits just below 2*pi
         c = centre(par, p0)
         if math.hypot(c[0] - p1[0], c[1] - p1[1]) < 1e-3: continue
         fe = rng.choice(["obj", "rec", "arr"])
@@ -784,6 +833,8 @@ def do_c13():
                     report(f"C13:container-forms-differ:int-columns:{pv_kind}-pivot", f"helix_awk with integer-typed columns and pivot {fp}: position/pivot {got} vs object {want}", {"par": ipar, "pivot": fp})
         if i % 10 == 0: call_forms(par, p0, gen_error(), gen_pivot())
         if i % 12 == 0: object_mutation("C13"); array_field_assignment("C13")
+        if i == 0: tiny_kappa_charge("C13")
+        if i % 20 == 3: curvilinear_vectors("C13")
         if i % 10 == 5: call_forms(par, rng.choice([[0.0, 0.0, rng.uniform(-20, 20)], [rng.uniform(-5, 5), 0.0, 0.0], [0.0, rng.uniform(-5, 5), 0.0]]), gen_error(), gen_pivot())
         # three ways of passing parameters
         h1 = p3.helix_obj(dr, phi0, kappa, dz, tanl, pivot=tuple(p0)); h2 = p3.helix_obj(dr=dr, phi0=phi0, kappa=kappa, dz=dz, tanl=tanl, pivot=tuple(p0))
@@ -1010,7 +1061,7 @@ def do_c07():
         if i % 6 == 0: int_columns_move("C07")
         if i % 2 == 0: isclose_boundary("C07")
         if i % 4 == 0: reordered_views("C07")
-        if i == 0: large_array("C07")
+        if i == 0: large_array("C07"); tiny_kappa_charge("C07")
         if i % 5 == 0: reuse_history("C07"); array_field_assignment("C07")
         if i % 7 == 0: named_pivot_forms("C07")
         # permutation equivariance on the flat layout
@@ -1030,8 +1081,44 @@ def fmap(par, p0, p1):
     h = obj(par, p0).change_pivot(*p1)
     return np.array(pars(h))
 
+def half_turn_cases():
+    """new pivots (almost) diametrically opposite the reference point, beyond the circle: turning angle pi - delta.  dr', phi0', kappa, tanl are
+    smooth there (only dz jumps by a pitch at the cut), so those rows / columns of J E J^T are compared with a finite-difference Jacobian; the
+    whole matrix must be finite, symmetric and positive semi-definite"""
+    global n_eval
+    for kappa in (1.3, -0.8):
+        for delta in (0.0, 3e-6, -2e-5, 1e-4):
+            par = [0.0, 0.0, kappa, 0.4, 0.6]; p0 = [0.0, 0.0, 0.0]; E = gen_error(); bump("pivot:half-turn")
+            c = centre(par, p0); v = (c[0] - 0.0, c[1] - 0.0)
+            ca, sa = math.cos(delta), math.sin(delta)
+            p1 = [c[0] + 1.4 * (ca * v[0] - sa * v[1]), c[1] + 1.4 * (sa * v[0] + ca * v[1]), 1.0]
+            idx = [0, 1, 2, 4]
+            J = np.zeros((5, 5))
+            for j in range(5):
+                hstep = 1e-6 * max(1.0, abs(par[j]))
+                up = list(par); up[j] += hstep; dn = list(par); dn[j] -= hstep
+                dv = fmap(up, p0, p1) - fmap(dn, p0, p1); dv[1] = wrap(dv[1]); J[:, j] = dv / (2 * hstep)
+            want = (J[idx] @ E @ J[idx].T)
+            for fe in ("obj", "arr"):
+                got = np.asarray(obj(par, p0, E).change_pivot(*p1).error) if fe == "obj" else ak.to_numpy(awk([par, par], [p0, p0], [E, E]).change_pivot(*p1).error[1])
+                n_eval += 1
+                inp = {"par": par, "pivot": p0, "new_pivot": p1, "error": E.tolist(), "turning_angle_pi_minus": delta}
+                if not np.all(np.isfinite(got)):
+                    report(f"C12:not-finite:half-turn:{fe}", f"propagated error matrix holds nan / inf for a pivot diametrically opposite (turning angle pi - {delta:g})", inp); continue
+                sub = got[np.ix_(idx, idx)]
+                tol = 1e-5 * (np.abs(want).max() + 1e-12)
+                if not np.all(np.abs(sub - want) <= tol):
+                    report(f"C12:not-JEJT:half-turn:{fe}", f"rows / columns (dr, phi0, kappa, tanl) of the propagated matrix differ from J E J^T with the finite-difference Jacobian at "
+                           f"turning angle pi - {delta:g} (max rel dev {np.abs(sub - want).max() / (np.abs(want).max() + 1e-300):.3g})", inp)
+                if not np.allclose(got, got.T, rtol=1e-10, atol=1e-18):
+                    report(f"C12:asymmetric:half-turn:{fe}", "propagated error matrix is not symmetric", inp)
+                w = np.linalg.eigvalsh((got + got.T) / 2)
+                if w.min() < -1e-9 * max(1e-30, abs(w).max()):
+                    report(f"C12:not-psd:half-turn:{fe}", f"propagated error matrix has eigenvalue {w.min():.3g}", inp)
+
 def do_c12():
     global n_eval
+    _guarded(lambda prefix: half_turn_cases(), "half-turn")("C12")
     n = 150 if tier == "quick" else 1500
     for i in range(n + len(CORNERS)):
         par, p0, p1 = corner(i) or (gen_helix(rng.choice(["typ", "typ", "low_pt", "high_pt", "drneg"])), gen_pivot(), gen_pivot())
@@ -1041,7 +1128,7 @@ def do_c12():
             p1 = [p0[0] + t * par[0] * math.cos(par[1]) + (0 if t == 1.0 else t * math.cos(par[1])), p0[1] + t * par[0] * math.sin(par[1]) + (0 if t == 1.0 else t * math.sin(par[1])), p0[2] + rng.uniform(-2, 2)]
         if i % 10 == 0: reuse_history("C12"); object_mutation("C12"); array_field_assignment("C12")
         if i == 0: large_array("C12")
-        if i % 25 == 0: reordered_views("C12")
+        if i % 25 == 0: reordered_views("C12"); int_columns_move("C12")
         c = centre(par, p0)
         if math.hypot(c[0] - p1[0], c[1] - p1[1]) < 0.5: continue
         base = fmap(par, p0, p1)
